@@ -222,6 +222,21 @@ pub struct FitPt {
 }
 pub struct CurveFit;
 const DAMP: [(f64, f64); 4] = [(2.0, 1.5), (0.5, 3.0), (10.0, 1.1), (0.1, 2.0)];
+/// full grid of (damping, multiplier) over their legal ranges; it contains the resonant pairs mult = damping/(damping-1)
+const DAMPINGS: [f64; 7] = [0.1, 0.5, 1.5, 2.0, 3.0, 5.0, 10.0];
+const MULTS: [f64; 5] = [1.1, 1.25, 1.5, 2.0, 3.0];
+fn damp_grid(t: Tier) -> Vec<(f64, f64)> {
+    let mut v = vec![];
+    for &d in &DAMPINGS {
+        for &m in &MULTS {
+            if t == Tier::Quick && !DAMP.contains(&(d, m)) && !((d - 1.0) * m - d).abs().lt(&1e-12) {
+                continue;
+            }
+            v.push((d, m));
+        }
+    }
+    v
+}
 
 struct FitOut {
     res: Result<Result<Vec<f64>, String>, String>,
@@ -274,7 +289,7 @@ impl Check for CurveFit {
     }
     fn axes(&self, t: Tier) -> Value {
         json!({"models": MODELS, "family": t.pick(vec![0,2], vec![0,1,2,3]), "n": t.pick(vec![12, 60], vec![5, 12, 30, 60]), "noise": [0.0, 0.05],
-               "tolerance": t.pick(vec![1e-6, 1e-12], vec![1e-6, 1e-9, 1e-12]), "h": t.pick(vec![1e-2], vec![1e-2, 1e-4]), "damping,mult": t.pick(DAMP[..2].to_vec(), DAMP.to_vec())})
+               "tolerance": t.pick(vec![1e-6, 1e-12], vec![1e-6, 1e-9, 1e-12]), "h": t.pick(vec![1e-2], vec![1e-2, 1e-4]), "damping x mult": format!("{:?}", damp_grid(t))})
     }
     fn points(&self, t: Tier) -> Vec<FitPt> {
         let mut v = vec![];
@@ -288,7 +303,10 @@ impl Check for CurveFit {
                         for start in 0..starts(model).len() {
                             for &tol in &t.pick(vec![1e-6, 1e-12], vec![1e-6, 1e-9, 1e-12]) {
                                 for &h in &t.pick(vec![1e-2], vec![1e-2, 1e-4]) {
-                                    for &(damping, mult) in t.pick(&DAMP[..2], &DAMP[..]) {
+                                    for &(damping, mult) in &damp_grid(t) {
+                                        if t == Tier::Thorough && !DAMP.contains(&(damping, mult)) && (kind % 2 == 1 || n == 30 || start > 1 && model > 3) {
+                                            continue;
+                                        }
                                         v.push(FitPt { model, kind, n, noise, start, tol, h, damping, mult });
                                     }
                                 }
@@ -370,6 +388,9 @@ impl Check for CurveFit {
 pub struct BadPt {
     which: usize,
     analytic: bool,
+    /// the invalid (negative) value used
+    #[serde(default)]
+    value: Option<f64>,
 }
 pub struct Invalid;
 impl Check for Invalid {
@@ -378,7 +399,7 @@ impl Check for Invalid {
         "invalid-arguments"
     }
     fn rule(&self) -> String {
-        "negative tolerance / FD width / damping and mismatched xs,ys lengths, for both variants: must be Err (no panic, no parameters); signature = which argument".into()
+        "negative tolerance / FD width / damping (six magnitudes from -1e-6 to -10 each) and mismatched xs,ys lengths, for both variants: must be Err (no panic, no parameters); signature = (which argument, value)".into()
     }
     fn points(&self, _t: Tier) -> Vec<BadPt> {
         let mut v = vec![];
@@ -387,7 +408,13 @@ impl Check for Invalid {
                 if analytic && which == 1 {
                     continue; // curve_fit_jac has no FD width
                 }
-                v.push(BadPt { which, analytic });
+                if which <= 2 {
+                    for value in [-1e-6, -1e-3, -0.5, -1.0, -2.0, -10.0] {
+                        v.push(BadPt { which, analytic, value: Some(value) });
+                    }
+                } else {
+                    v.push(BadPt { which, analytic, value: None });
+                }
             }
         }
         v
@@ -399,9 +426,9 @@ impl Check for Invalid {
         let mut fp = FitPt { model: 1, kind: 0, n: 8, noise: 0.0, start: 0, tol: 1e-6, h: 1e-2, damping: 2.0, mult: 1.5 };
         let mut yy = ys.clone();
         match p.which {
-            0 => fp.tol = -1e-6,
-            1 => fp.h = -1e-2,
-            2 => fp.damping = -2.0,
+            0 => fp.tol = p.value.unwrap_or(-1e-6),
+            1 => fp.h = p.value.unwrap_or(-1e-2),
+            2 => fp.damping = p.value.unwrap_or(-2.0),
             3 => {
                 yy.pop();
             }
@@ -414,9 +441,9 @@ impl Check for Invalid {
         let names = ["negative-tolerance", "negative-h", "negative-damping", "ys-shorter", "ys-longer"];
         match out.res {
             Ok(Err(_)) => {}
-            other => o.viol(subject, "invalid-argument-err", format!("{}: {:?}", names[p.which], other)),
+            other => o.viol(subject, "invalid-argument-err", format!("{} = {:?}: {:?}", names[p.which], p.value, other)),
         }
-        o.sig = format!("{}|{}", names[p.which], p.analytic);
+        o.sig = format!("{}|{}|{:?}", names[p.which], p.analytic, p.value);
         o
     }
 }
